@@ -231,7 +231,7 @@ Proof.
       * destruct ((y =? rows - 1) && (1 <? cols)) eqn:Elast.
         -- apply andb_prop in Elast as [Ey Ec].
            destruct (last_row_ok c cols _ Hrow Hrne) as
-             [(za & zcs & zc & Er1 & Elr) | (nr0 & ya & ycs & yc & za & zcs & zc & Elr & Hcells & Hnr & Hyr & Hwsum)].
+             [(r1 & Er1 & Elr) | (nr0 & ya & ycs & yt & za & zcs & zt & Elr & Hcells & Hnr & Hyr & Hby & Hbz & Hwsum)].
            ++ rewrite Elr. cbn [bind].
               pose proof (row_plain_ok c (d_rs acc) _ t1 t1 y (get_row (t_grid t) y) True Hc Hrow' HI1 HR1
                             (SameFrame_refl _ _) Hy1 Hw1) as W.
@@ -243,14 +243,14 @@ Proof.
               rewrite run_app, Ht1. cbn [app]. rewrite app_nil_r.
               subst t_runs rs2. eapply ploop_next with (keep := True); eauto.
            ++ rewrite Elr. cbn [bind].
-              assert (Hwsum' : row_width nr0 + snd yc + snd zc = t_cols t1) by congruence.
-              pose proof (row_trick_ok c (d_rs acc) nr0 ya ycs yc za zcs zc _ t1 t1 y (get_row (t_grid t) y) Hc Hnr Hyr Hcells
+              assert (Hwsum' : row_width nr0 + calc_width yt + calc_width zt = t_cols t1) by congruence.
+              pose proof (row_trick_ok c (d_rs acc) nr0 ya ycs yt za zcs zt _ t1 t1 y (get_row (t_grid t) y) Hc Hnr Hyr Hby Hbz Hcells
                             Hwsum' HI1 HR1 (SameFrame_refl _ _) Hy1) as W.
               match goal with |- context [emit_runs ?ea ?eb ?ec] =>
                 destruct (emit_runs ea eb ec) as [t_runs rs2] eqn:Er;
                 assert (E1 : t_runs = fst (emit_runs ea eb ec)) by (rewrite Er; reflexivity);
                 assert (E2 : rs2 = snd (emit_runs ea eb ec)) by (rewrite Er; reflexivity); clear Er end.
-              eexists. exists (t_pos ++ t_runs ++ emit_ins c rs2 (snd zc) (ya, ycs, [yc]) ++ []).
+              eexists. exists (t_pos ++ t_runs ++ emit_ins c rs2 (calc_width zt) (ya, ycs, yt) ++ []).
               split; [reflexivity|]. split; [reflexivity|].
               rewrite run_app, Ht1. rewrite app_nil_r.
               subst t_runs rs2. eapply ploop_next with (keep := False); eauto.
@@ -439,7 +439,7 @@ Lemma blank_new_term cols rows y : blank_row_text (get_row (t_grid (new_term col
 Proof.
   unfold new_term, get_row. cbn. destruct (nthz (repeat (blank_row cols) (Z.to_nat rows)) y) as [r|] eqn:E; [|constructor].
   unfold nthz in E. destruct (y <? 0); [discriminate|]. apply nth_error_In in E. apply repeat_spec in E. subst r.
-  unfold blank_row_text, blank_row. apply Forall_forall. intros x Hx. apply repeat_spec in Hx. subst x. split; reflexivity.
+  unfold blank_row_text, blank_row. apply Forall_forall. intros x Hx. apply repeat_spec in Hx. subst x. repeat split; reflexivity.
 Qed.
 
 Lemma syncp_start c cols rows : 1 <= cols -> 1 <= rows -> SyncP c (init_scr true) (new_term cols rows).
